@@ -15,9 +15,15 @@ LEAN_TARGETS = ['Nitime.Props.C03']
 RULE = ('(container, query/epoch) pairs from one PRNG state: uniform axes (all 9 units, t0 of both signs, lengths 1..50, exact-picosecond '
         'parameters), sorted/unsorted time arrays with duplicates, 1-/2-/3-d integer series data, event collections; queries on / between / '
         'before / after samples given as time objects in another unit, python ints, floats, arrays; epochs inside, between samples, partly and '
-        'wholly outside, scalar and 1-d, all constructor forms; distinct = distinct protocol line; non-trivial = container with >= 2 samples')
+        'wholly outside, scalar and 1-d, all constructor forms; operation HISTORIES on one object (lookups of every mode / in-place changes by every '
+        'route: item assignment on the object, through a view, through its parent, the ndarray view, flat, put, += -= *= , ufuncs with out=, '
+        'sort, reversed-view sort, copyto; uniform axes and series.time: += -= *= /= accepted and refused, and axes / series / arrays made by '
+        'ordinary arithmetic axis+x, x+axis, axis-x, x-axis / lookups again, judged on the CURRENT samples and against a fresh container); '
+        'distinct = distinct protocol line; non-trivial = container with >= 2 samples')
 ASSUMPTIONS = ['uniform axes are built with parameters that are exact in picoseconds (checked on the real object; C02 owns the inexact ones)',
-               'magnitudes stay below 2^61 ps', 'no in-place shifts before a lookup (C17)',
+               'magnitudes stay below 2^61 ps (2^62 inside histories)',
+               'in-place operands are time objects or python ints (bare floats are refused by numpy casting; bare numbers under ndarray += on a TimeArray are C01\'s)',
+               'epoch selection on a time array that a history left unsorted: correspondence only (the property speaks of time-sorted containers)',
                'sampling interval/rate of the TimeSeries returned by `during` is not compared (C02: Frequency.to_period)']
 TRUSTED_EXTRA = ['numpy semantics modelled, not verified: np.where, argmax/argmin (first extremum), floor_divide on int64, fancy/slice indexing on the last axis, '
                  'np.array refusing ragged blocks (ValueError)',
@@ -513,6 +519,8 @@ def run_case(m, pool=None):
     container are snapshotted around the lookup; `m['mutated']` names those that changed."""
     if m['op'] == 'seq':
         return run_seq(m)
+    if m['op'] == 'hist':
+        return run_hist(m)
     A = Args(m, {} if pool is None else pool)
     c = _run_case(m, A)
     if c is not None:
@@ -552,6 +560,22 @@ def _run_case(m, A):
         return Case('C03 epochs_getitem %s %s' % (epoch_toks(m['e']), ilist(m['pos'])), call(f), 'epochs/getitem', meta=m)
     if op == 'epochs':
         return Case('C03 epochs ' + epoch_toks(m['e']), call(lambda: epoch_canon(A.get('e', lambda: build_epoch(m['e'])))), 'epochs/ctor', meta=m)
+    if op == 'derive':
+        ax, ch = m['axis'], m['d']
+        base = A.get('obj', lambda: build_axis(ax))
+        if base is None:
+            return None
+
+        def f():
+            v = derive_axis(base, ch, ax['unit'])
+            m['samples'] = [int(x) for x in np.asarray(v).reshape(-1)] if isinstance(v, np.ndarray) and np.asarray(v).dtype.kind in 'iu' else None
+            if isinstance(v, t.UniformTime):
+                return 'ok U:%s:%d:%d:%d:%d' % (v.time_unit, int(v.t0), int(v.sampling_interval), len(v), int(v.duration))
+            if isinstance(v, t.TimeArray):
+                return canon_T(v)
+            return 'not-a-time-object:%s' % type(v).__name__
+        return Case('C03 derive uaxis %s %s' % (axis_tok(ax, base), uchange_tok(ch).split(' ', 2)[2]), call(f),
+                    'uniform/derive/%s%s' % (ch['c'][1:], '-r' if ch['route'].endswith('-r') else ''), meta=m, nontrivial=ax['n'] >= 2)
     # ---- container
     if kind in ('uaxis', 'series'):
         ax = m['axis']
@@ -827,12 +851,18 @@ def check_case(c):
         return None
     if m['op'] == 'seq':
         return check_seq(c)
+    if m['op'] == 'hist':
+        return check_hist(c)
     mut = m.get('mutated') or []
     if mut:
         sym = 'container-mutated' if 'obj' in mut else 'argument-mutated'
         return Failure('%s/%s' % (c.clause.replace('/current-model', ''), sym),
                        '%s: the lookup changed its %s (%s); arguments and containers must be bit-for-bit unchanged and reusable  [op: %s] impl=%s'
                        % (c.clause, 'container' if 'obj' in mut else 'argument object(s)', ','.join(mut), c.line[:240], c.impl[:120]), {'meta': m}, case=c)
+    if m['op'] == 'derive':
+        return check_derive(c)
+    if m.get('unsorted_epoch'):
+        return None         # epoch selection is only specified for time-sorted containers (correspondence still applies)
     e = expectation(m)
     if e is None:
         return None
@@ -885,6 +915,445 @@ def check_case(c):
     if want.startswith('err'):
         return fail('error-kind', 'wrong error kind')
     return fail('wrong-selection', 'positions / values / data differ from the brute-force selection')
+
+
+
+def derive_samples(ax, ch):
+    """element-wise result of `axis ∘ x` under numpy broadcasting with python ints; None: shapes do not match"""
+    n, xs = ax['n'], ch['xs']
+    times = [ax['t0'] + i * ax['dt'] for i in range(n)]
+    f = {'uadd': lambda t, x: t + x, 'usub': lambda t, x: t - x, 'ursub': lambda t, x: x - t}[ch['c']]
+    if ch['sc'] or len(xs) == 1:
+        return [f(t, xs[0]) for t in times]
+    if len(xs) == n:
+        return [f(t, x) for t, x in zip(times, xs)]
+    if n == 1:
+        return [f(times[0], x) for x in xs]
+    return None
+
+
+def check_derive(c):
+    """arithmetic that makes a new object from a uniform axis: the result holds the element-wise values and is EITHER a
+    uniform axis whose t0 / interval / duration describe those values OR an ordinary time array; the operand is unchanged"""
+    m = c.meta
+    ax, ch, got = m['axis'], m['d'], c.impl
+
+    def fail(sym, what):
+        return Failure('%s/%s' % (c.clause, sym), '%s: %s  [op: %s] impl=%s' % (c.clause, what, c.line[:240], got[:200]), {'meta': m}, case=c)
+    if m.get('mutated'):
+        return fail('operand-axis-changed', 'the arithmetic changed the axis it was applied to')
+    want = derive_samples(ax, ch)
+    if want is None:
+        return None if got == 'err ValueError' else fail('accepts', 'operand shapes do not match: ValueError expected')
+    if not got.startswith('ok '):
+        return fail('raises', 'operation raised')
+    if m.get('samples') != want:
+        return fail('wrong-samples', 'result holds %s, the element-wise values are %s' % (str(m.get('samples'))[:120], str(want)[:120]))
+    if got.startswith('ok U:'):
+        u, t0, dt, n, dur = got[3:].split(':')[1:]
+        t0, dt, n, dur = int(t0), int(dt), int(n), int(dur)
+        described = [t0 + i * dt for i in range(n)]
+        if described != want or dur != n * dt or dt == 0:
+            return fail('attributes-do-not-describe-samples', 'a uniform axis with t0=%d interval=%d duration=%d (i.e. samples %s…) that holds %s…: time lookups on it go wrong'
+                        % (t0, dt, dur, described[:3], want[:3]))
+        if u != ax['unit']:
+            return fail('unit', 'unit of the result')
+    return None
+
+
+# ------------------------------------------------------------------ operation histories (lookups / in-place changes / lookups)
+# The property is about the container's CURRENT contents: whatever was looked up before, and by whatever route the
+# samples were changed in place since, a lookup must answer as a fresh container holding the same samples would.
+T_ROUTES = {
+    'set': ['setitem', 'view-setitem', 'base-view', 'flat', 'put', 'np.put', 'parent'],
+    'add': ['iadd', 'ufunc-out', 'view-iadd', 'base-iadd'],
+    'sub': ['isub', 'ufunc-out', 'view-isub'],
+    'mul': ['imul', 'ufunc-out', 'negative-out'],
+    'sort': ['sort', 'ndarray.sort', 'base-sort', 'view-sort'],
+    'sortdesc': ['reversed-view-sort'],
+    'reverse': ['setitem-all', 'view-assign', 'copyto'],
+    'assign': ['copyto', 'setitem-ellipsis', 'view-assign', 'base-assign'],
+}
+BIG = 2**62
+
+
+def is_sorted(ps):
+    return all(a <= b for a, b in zip(ps, ps[1:]))
+
+
+def expect_tchange(ps, ch):
+    """the new contents, element by element with python ints (None: the change is not admissible)"""
+    c, n = ch['c'], len(ps)
+    if c == 'set':
+        return ps[:ch['i']] + [ch['v']] + ps[ch['i'] + 1:] if 0 <= ch['i'] < n else None
+    if c in ('add', 'sub', 'assign'):
+        xs = ch['xs']
+        if len(xs) not in (1, n):
+            return None
+        xs = xs * n if len(xs) == 1 and n != 1 else xs
+        return [{'add': a + b, 'sub': a - b, 'assign': b}[c] for a, b in zip(ps, xs)]
+    if c == 'mul':
+        return [a * ch['k'] for a in ps]
+    if c == 'sort':
+        return sorted(ps)
+    if c == 'sortdesc':
+        return sorted(ps, reverse=True)
+    if c == 'reverse':
+        return ps[::-1]
+    raise ValueError(c)
+
+
+def do_tchange(tgt, ch, pool):
+    """perform the change on the real time array `tgt` by the route the description names"""
+    import operator
+    c, route = ch['c'], ch['route']
+    ou = ch.get('ounit', 'ps')
+
+    def opnd():
+        return mk_T(ou, bool(ch.get('sc')), ch['xs'])
+    if c == 'set':
+        i, v = ch['i'], ch['v']
+        if route == 'setitem':
+            tgt[i] = mk_T(ou, True, [v])
+        elif route == 'view-setitem':
+            w = tgt[ch['lo']:]
+            w[i - ch['lo']] = mk_T(ou, True, [v])
+        elif route == 'base-view':
+            np.asarray(tgt)[i] = v
+        elif route == 'flat':
+            tgt.flat[i] = v
+        elif route == 'put':
+            tgt.put([i], [v])
+        elif route == 'np.put':
+            np.put(tgt, [i], [v])
+        elif route == 'parent':
+            pool['P'][pool['P_off'] + i] = mk_T(ou, True, [v])
+        else:
+            raise ValueError(route)
+    elif c in ('add', 'sub'):
+        uf, iop = (np.add, operator.iadd) if c == 'add' else (np.subtract, operator.isub)
+        if route in ('iadd', 'isub'):
+            iop(tgt, opnd())
+        elif route == 'ufunc-out':
+            uf(tgt, opnd(), out=tgt)
+        elif route in ('view-iadd', 'view-isub'):
+            w = tgt[:]
+            iop(w, opnd())
+        elif route == 'base-iadd':
+            b = np.asarray(tgt)
+            b += np.asarray(opnd())
+        else:
+            raise ValueError(route)
+    elif c == 'mul':
+        k = ch['k']
+        if route == 'imul':
+            operator.imul(tgt, k)
+        elif route == 'ufunc-out':
+            np.multiply(tgt, k, out=tgt)
+        elif route == 'negative-out':
+            np.negative(tgt, out=tgt)
+        else:
+            raise ValueError(route)
+    elif c == 'sort':
+        if route == 'sort':
+            tgt.sort()
+        elif route == 'ndarray.sort':
+            np.ndarray.sort(tgt)
+        elif route == 'base-sort':
+            np.asarray(tgt).sort()
+        elif route == 'view-sort':
+            tgt[:].sort()
+        else:
+            raise ValueError(route)
+    elif c == 'sortdesc':
+        tgt[::-1].sort()
+    elif c == 'reverse':
+        if route == 'setitem-all':
+            tgt[:] = tgt[::-1].copy()
+        elif route == 'view-assign':
+            w = tgt[:]
+            w[:] = w[::-1].copy()
+        elif route == 'copyto':
+            np.copyto(tgt, tgt[::-1].copy())
+        else:
+            raise ValueError(route)
+    elif c == 'assign':
+        if route == 'copyto':
+            np.copyto(tgt, opnd())
+        elif route == 'setitem-ellipsis':
+            tgt[...] = opnd()
+        elif route == 'view-assign':
+            w = tgt[:]
+            w[...] = opnd()
+        elif route == 'base-assign':
+            np.asarray(tgt)[:] = np.array(ch['xs'], dtype=np.int64)
+        else:
+            raise ValueError(route)
+    else:
+        raise ValueError(c)
+
+
+def tchange_tok(ch):
+    c = ch['c']
+    arg = {'set': lambda: '%d %d' % (ch['i'], ch['v']), 'mul': lambda: '%d' % ch['k']}.get(c, lambda: ilist(ch['xs']) if 'xs' in ch else '')()
+    return ('C %s %s %s' % (ch['route'], c, arg)).strip()
+
+
+def expect_uchange(ax, ch):
+    """('ok', new axis description) or ('err', kind): element-wise arithmetic on the samples, python ints"""
+    n, c = ax['n'], ch['c']
+    times = [ax['t0'] + i * ax['dt'] for i in range(n)]
+    if c in ('uadd', 'usub', 'ursub'):
+        xs, sg = ch['xs'], (1 if c == 'uadd' else -1)
+        if not ch['sc']:
+            if len(xs) == 0:
+                return ('err', 'ValueError')
+            if len(xs) > 1 and (any(b - a != xs[1] - xs[0] for a, b in zip(xs, xs[1:])) or len(xs) != n):
+                return ('err', 'ValueError')       # would break uniformity / shapes do not match
+        new = [t + sg * (xs[0] if len(xs) == 1 else x) for t, x in zip(times, xs * n if len(xs) == 1 else xs)]
+        dt = new[1] - new[0] if n >= 2 else ax['dt']
+        if dt == 0:
+            return ('err', 'ValueError')           # all samples on one instant
+        if c == 'ursub':                           # x - axis: every sample changes its sign
+            new, dt = [-t for t in new], -dt
+    elif c == 'umul':
+        if ch['k'] == 0:
+            return ('err', 'ValueError')
+        new, dt = [t * ch['k'] for t in times], ax['dt'] * ch['k']
+    elif c == 'udiv':
+        k = ch['k']
+        if k == 0 or any(t % k for t in times) or ax['dt'] % k:
+            return ('err', 'ValueError')
+        new, dt = [t // k for t in times], ax['dt'] // k
+    else:
+        raise ValueError(c)
+    out = {k: v for k, v in ax.items() if k != 'how'}
+    g = ax['g'] * abs(ch['k']) if c == 'umul' else (max(1, ax['g'] // abs(ch['k'])) if c == 'udiv' else ax['g'])
+    out.update(t0=new[0], dt=dt, ctor='length', g=g)
+    return ('ok', out)
+
+
+def uchange_operand(ch, unit):
+    c = ch['c']
+    if c in ('umul', 'udiv'):
+        return int(ch['k'])
+    if ch.get('rep') is not None:
+        return rep_build(ch['rep'])
+    return int(ch['xs'][0] // FACTOR[unit]) if ch['form'] == 'pyint' else mk_T(ch['ounit'], bool(ch['sc']), ch['xs'])
+
+
+def derive_axis(a, ch, unit):
+    """arithmetic that makes a NEW object from the axis `a`: a + x, x + a, a - x, x - a"""
+    x = uchange_operand(ch, unit)
+    c, rev = ch['c'], ch['route'].endswith('-r')
+    if c == 'uadd':
+        return x + a if rev else a + x
+    if c == 'usub':
+        return a - x
+    if c == 'ursub':
+        return x - a
+    raise ValueError(c)
+
+
+def do_uchange(box, kind, ch, unit):
+    """`+= -= *= /=` on the real axis (for a series: on its `.time`, through the attribute or through an alias); the
+    `derived` routes make a NEW axis by ordinary arithmetic (for a series: a new series on that axis), which replaces
+    the object under study — the old one must stay as it was"""
+    import operator
+    obj = box['obj']
+    if ch['route'].startswith('derived'):
+        before = snap(obj)
+        if kind == 'uaxis':
+            new = derive_axis(obj, ch, unit)
+        else:
+            v = derive_axis(obj.time, ch, unit)
+            new = ts().TimeSeries(obj.data, time=v, time_unit=v.time_unit)
+        box['operand_changed'] = differs(before, snap(obj))
+        box['obj'] = new
+        return
+    x = uchange_operand(ch, unit)
+    iop = {'uadd': operator.iadd, 'usub': operator.isub, 'umul': operator.imul, 'udiv': operator.itruediv}[ch['c']]
+    if kind == 'uaxis':
+        iop(obj, x)
+    elif ch['route'] == 'attr':
+        obj.time = iop(obj.time, x)         # what `series.time += x` does
+    else:
+        t = obj.time
+        iop(t, x)
+
+
+def uchange_tok(ch):
+    c = ch['c']
+    if c in ('uadd', 'usub', 'ursub'):
+        return 'C %s %s %d %s' % (ch['route'], c, 1 if ch['sc'] else 0, ilist(ch['xs']))
+    return 'C %s %s %d' % (ch['route'], c, ch['k'])
+
+
+CONT_KEYS = ('t', 'vals', 'axis', 'data')
+
+
+def run_hist(m):
+    """one container object through lookups, in-place changes and lookups again.  m['steps'] holds `{'look': …}` (a lookup
+    description without its container) and `{'chg': …}`; the container description is updated along the way by
+    `expect_tchange` / `expect_uchange`; after every change the real object's contents are read back."""
+    t = ts()
+    kind = m['kind']
+    pool = {}
+    cur = {k: m[k] for k in CONT_KEYS if k in m}
+    if kind == 'tarray':
+        born = m.get('born')
+        if born and 'derive' in born:
+            # the array is what arithmetic of a uniform axis with a non-uniform (or collapsing) operand gives
+            base = build_axis(born['axis'])
+            if base is None:
+                return None
+            try:
+                obj = derive_axis(base, born['derive'], born['axis']['unit'])
+            except Exception:       # noqa
+                obj = None
+            if obj is None or isinstance(obj, t.UniformTime) or not isinstance(obj, t.TimeArray):
+                # not the ordinary time array it should be: judged as the one-shot `derive` operation
+                return run_case({'op': 'derive', 'kind': 'uaxis', 'axis': born['axis'], 'd': born['derive']})
+        elif born:
+            pool['P'] = mk_T(m['t']['unit'], False, born['pre'] + m['t']['ps'] + born['post'])
+            pool['P_off'] = len(born['pre'])
+            obj = pool['P'][len(born['pre']):len(born['pre']) + len(m['t']['ps'])]
+        else:
+            obj = mk_T(m['t']['unit'], False, m['t']['ps'])
+        head = tarr_tok(m['t'])
+    elif kind == 'events':
+        obj = t.Events(mk_T(m['t']['unit'], False, m['t']['ps']), **{'k%d' % i: np.array(v, dtype=np.int64) for i, v in enumerate(m['vals'])})
+        head = tarr_tok(m['t']) + ' D:%d:%d:%s' % (len(m['vals']), len(m['t']['ps']), ilist([x for v in m['vals'] for x in v]))
+    elif kind == 'uaxis':
+        obj = build_axis(m['axis'])
+        if obj is None:
+            return None
+        head = axis_tok(m['axis'], obj)
+    else:
+        obj = build_series(m['axis'], m['data'])
+        if obj is None:
+            return None
+        head = axis_tok(m['axis'], obj.time) + ' ' + data_tok(m['data'])
+    pool['X'] = obj
+    box = {'obj': obj}
+    unit = m['t']['unit'] if 't' in m else m['axis']['unit']
+    cname = {'uaxis': 'uniform', 'tarray': 'tarray', 'series': 'series', 'events': 'events'}[kind]
+
+    def time_obj():
+        o = box['obj']
+        return {'tarray': lambda: o, 'events': lambda: o.time, 'uaxis': lambda: o, 'series': lambda: o.time}[kind]()
+
+    def read_back():
+        a = time_obj()
+        if kind in ('tarray', 'events'):
+            return 'T:%s:0:%s' % (a.time_unit, ilist(np.asarray(a).reshape(-1)))
+        if not isinstance(a, t.UniformTime):
+            return 'not-a-uniform-axis:%s' % type(a).__name__
+        return 'U:%s:%d:%d:%d:%d' % (a.time_unit, int(a.t0), int(a.sampling_interval), len(a), int(a.duration))
+    toks, impls, trace, nt = [], [], [], True
+    for st in m['steps']:
+        if 'look' in st:
+            sm = dict(cur, **st['look'])
+            sm.update(kind=kind, share=dict(st['look'].get('share') or {}, obj='X'))
+            if kind in ('tarray', 'events') and not is_sorted(cur['t']['ps']) and (sm['op'] in ('slice_during', 'during') or sm.get('key') == 'ep'):
+                sm['unsorted_epoch'] = True
+            c = run_case(sm, pool)
+            if c is None:
+                return None
+            sm['_impl'], sm['_line'], sm['_clause'] = c.impl, c.line, c.clause
+            lt = c.line.split(' ')[1:]
+            toks.append('L ' + ' '.join([lt[0]] + lt[2 + (2 if kind in ('series', 'events') else 1):]))
+            impls.append(c.impl)
+            fresh = run_case(clean_step(sm))            # the same lookup asked of a FRESH container holding the current contents
+            trace.append({'look': sm, 'fresh': None if fresh is None else fresh.impl})
+            nt = nt and c.nontrivial
+            continue
+        ch = st['chg']
+        if kind in ('tarray', 'events'):
+            new = expect_tchange(list(cur['t']['ps']), ch)
+            want = 'err ValueError' if new is None else 'ok T:%s:0:%s' % (unit, ilist(new))
+            tgt = time_obj()
+
+            def f():
+                do_tchange(tgt, ch, pool)
+                return 'ok ' + read_back()
+            toks.append(tchange_tok(ch))
+            if new is not None:
+                cur = dict(cur, t=dict(cur['t'], ps=new))
+        else:
+            r = expect_uchange(cur['axis'], ch)
+            toks.append(uchange_tok(ch))
+            if r[0] == 'ok':
+                cur = dict(cur, axis=r[1])
+                want = 'ok U:%s:%d:%d:%d:%d' % (unit, r[1]['t0'], r[1]['dt'], r[1]['n'], r[1]['n'] * r[1]['dt'])
+            else:
+                want = 'err ' + r[1]
+
+            def f():
+                box.pop('operand_changed', None)
+                do_uchange(box, kind, ch, unit)
+                pool['X'] = box['obj']
+                return 'ok ' + read_back()
+        impl = call(f)
+        samples = [int(x) for x in np.asarray(time_obj()).reshape(-1)]
+        wsamp = list(cur['t']['ps']) if 't' in cur else [cur['axis']['t0'] + i * cur['axis']['dt'] for i in range(cur['axis']['n'])]
+        impls.append(impl)
+        trace.append({'chg': ch, 'impl': impl, 'want': want, 'samples_ok': samples == wsamp, 'operand_changed': bool(box.get('operand_changed'))})
+        if samples != wsamp or not impl.startswith('ok') or (impl != want and not ch['route'].startswith('derived')):
+            break               # the contents are no longer what the rest of the history was written for
+        # (a derived axis that holds the right samples under wrong attributes goes on: its lookups are the failing inputs)
+    m['_trace'] = trace
+    return Case('C03 hist %s %s | %s' % (kind, head, ' | '.join(toks)), ' ; '.join(impls), 'hist/' + cname, meta=m, nontrivial=nt)
+
+
+def check_hist(c):
+    m = c.meta
+    if m['op'] == 'derive':
+        return check_derive(c)
+    cname = c.clause.split('/', 1)[1]
+    changed, stale = False, None
+    for i, tr in enumerate(m.get('_trace') or []):
+        if 'chg' in tr:
+            ch = tr['chg']
+            derived = ch['route'].startswith('derived')
+            word = 'derive' if derived else 'inplace'
+            if tr.get('operand_changed'):
+                return Failure('%s/derive/%s/operand-axis-changed' % (cname, ch['c']),
+                               'step %d of a history: arithmetic that makes a new object (%s) changed the axis it was applied to  [op: %s]'
+                               % (i + 1, ch, c.line[:300]), {'meta': m}, case=c)
+            if tr['impl'] != tr['want'] or not tr['samples_ok']:
+                if stale is not None:
+                    return stale        # a consequence of the stale attributes reported there
+                # (a series built on a derived axis takes t0 / interval from its attributes: wrong attributes show as wrong samples)
+                attrs = derived and tr['impl'].startswith('ok') and (tr['samples_ok'] or cname == 'series')
+                f = Failure('%s/%s/%s/%s' % (cname, word, ch['c'], 'attributes-do-not-describe-samples' if attrs else ch['route'] + '/contents-wrong'),
+                            'step %d of a history: %s %s left %s%s, want %s  [op: %s]'
+                            % (i + 1, 'the arithmetic' if derived else 'the in-place change', ch, tr['impl'][:160],
+                               '' if tr['samples_ok'] else ' (samples differ)', tr['want'][:160], c.line[:300]), {'meta': m}, case=c)
+                if derived and tr['samples_ok'] and tr['impl'].startswith('ok'):
+                    stale = stale or f      # go on: the lookups on this axis are the failing inputs
+                    continue
+                return f
+            changed = True
+            continue
+        sm = tr['look']
+        f = check_case(Case(sm['_line'], sm['_impl'], sm['_clause'], meta=sm))
+        after = ' after an in-place change' if changed else ''
+        if f is not None and stale is not None and not f.key.endswith('-mutated'):
+            return Failure('%s/axis-attributes-stale' % sm['_clause'],
+                           'step %d of a history, on an axis made by ordinary arithmetic (%s): %s' % (i + 1, stale.what[:200], f.what), {'meta': m}, case=c)
+        if f is not None:
+            key = f.key
+            if i > 0 and not key.endswith('-mutated') and tr['fresh'] is not None and tr['fresh'] != sm['_impl']:
+                fr = run_case(clean_step(sm))
+                if fr is not None and check_case(fr) is None:
+                    key = '%s/%s' % (sm['_clause'], 'stale-after-inplace-change' if changed else 'depends-on-earlier-lookups')
+            return Failure(key, 'step %d of a history on one %s object%s: %s' % (i + 1, cname, after, f.what), {'meta': m}, case=c)
+        if stale is None and tr['fresh'] is not None and tr['fresh'] != sm['_impl']:
+            return Failure('%s/history/fresh-container-differs' % sm['_clause'],
+                           'step %d of a history on one %s object%s: the lookup answers %s, a fresh container holding the same samples answers %s  [op: %s]'
+                           % (i + 1, cname, after, sm['_impl'][:160], tr['fresh'][:160], sm['_line'][:240]), {'meta': m}, case=c)
+    return stale
 
 
 # ------------------------------------------------------------------ generators
@@ -1089,6 +1558,234 @@ def gen_seq(rng, nmax):
     return {'op': 'seq', 'kind': 'seq', 'seqkind': 'argument-on-two-containers', 'steps': steps}
 
 
+def gen_tchange(rng, t, born_view=False):
+    """an in-place change of the time array described by `t` (its current contents) and the route it takes"""
+    ps, g, n = list(t['ps']), t['g'], len(t['ps'])
+    lo, hi = min(ps), max(ps)
+    w = (hi - lo) + g
+    srt = is_sorted(ps)
+    if n < 2:
+        goal = rng.choice(['shift', 'scale', 'any', 'set'])
+    elif srt:
+        goal = rng.choice(['unsort', 'unsort', 'unsort', 'unsort', 'dup', 'shift', 'scale', 'any'])
+    else:
+        goal = rng.choice(['sort', 'sort', 'sort', 'dup', 'shift', 'scale', 'any', 'set'])
+    ch = None
+    if goal == 'unsort':
+        k = rng.random()
+        if k < 0.35:        # one sample jumps over its neighbours
+            if rng.random() < 0.5:
+                i = rng.randrange(1, n)
+                v = rng.choice([ps[0] - rng.randint(1, 3) * g, ps[i - 1] - 1, ps[0] - 1, (ps[0] + ps[i - 1]) // 2 - 1])
+            else:
+                i = rng.randrange(0, n - 1)
+                v = rng.choice([ps[-1] + rng.randint(1, 3) * g, ps[i + 1] + 1, ps[-1] + 1])
+            ch = {'c': 'set', 'i': i, 'v': v}
+        elif k < 0.55:      # a correction of some time stamps
+            xs = [0] * n
+            xs[0] = w + rng.randint(0, 2) * g
+            if rng.random() < 0.5:
+                xs[-1] = -(w + rng.randint(0, 2) * g)
+            if rng.random() < 0.3:
+                xs = [-x for x in xs[::-1]]
+            ch = {'c': rng.choice(['add', 'sub']), 'xs': xs, 'sc': False}
+        elif k < 0.7:
+            ch = {'c': 'mul', 'k': rng.choice([-1, -1, -2])}
+        elif k < 0.8:
+            ch = {'c': 'reverse'}
+        elif k < 0.88:
+            ch = {'c': 'sortdesc'}
+        else:
+            xs = list(ps)
+            rng.shuffle(xs)
+            ch = {'c': 'assign', 'xs': xs, 'sc': False}
+    elif goal == 'sort':
+        ch = {'c': 'sort'} if rng.random() < 0.7 else {'c': 'assign', 'xs': sorted(ps), 'sc': False}
+    elif goal == 'dup':
+        i = rng.randrange(n)
+        j = min(max(i + rng.choice([-1, 1]), 0), n - 1)
+        ch = {'c': 'set', 'i': i, 'v': ps[j]}
+    elif goal == 'set':
+        ch = {'c': 'set', 'i': rng.randrange(n), 'v': rng.randint(lo - g, hi + g)}
+    elif goal == 'shift':
+        d = rng.randint(-5, 5) * g + rng.choice([0, 0, 1])
+        full = rng.random() < 0.4
+        ch = {'c': rng.choice(['add', 'sub']), 'xs': [d] * n if full else [d], 'sc': (not full) and rng.random() < 0.5}
+    elif goal == 'scale':
+        ch = {'c': 'mul', 'k': rng.choice([2, -1, -2, 3])}
+    else:
+        spread = max(2, n)
+        ch = {'c': 'assign', 'xs': [lo + rng.randint(0, spread) * g for _ in range(n)], 'sc': False}
+    new = expect_tchange(ps, ch)
+    if new is None or max(abs(x) for x in new) >= BIG or max(abs(x) for x in ch.get('xs', [0])) >= BIG:
+        ch = {'c': 'sort'}
+    routes = [r for r in T_ROUTES[ch['c']] if (r != 'parent' or born_view) and (r != 'negative-out' or ch.get('k') == -1)]
+    ch['route'] = rng.choice(routes)
+    if ch['route'] == 'view-setitem':
+        ch['lo'] = rng.randint(0, ch['i'])
+    ch['ounit'] = rng.choice(UNITS)
+    return ch
+
+
+def gen_uoperand(rng, ax, derived, bare=False):
+    """a shift or a ramp for + / - on the axis: (xs in ps, 0-d?, how the operand is written).  `bare`: python numbers /
+    lists / float arrays only (the reflected operations `x + axis`, `x - axis` reach the axis only then: a time object on
+    the left answers itself, with an ordinary time array)"""
+    t0, dt, n, g = ax['t0'], ax['dt'], ax['n'], ax['g']
+    f = FACTOR[ax['unit']]
+    if rng.random() < 0.5:  # a shift: 0-d time object, python number in the axis unit, or a one-element array
+        d = rng.choice([rng.randint(-5, 5) * g, dt, -dt, -t0, rng.randint(-3, 3) * dt + rng.choice([0, 1, -1])])
+        form = 'pyint' if d % f == 0 and (bare or rng.random() < 0.4) else 'time'
+        out = {'xs': [d], 'sc': form == 'pyint' or rng.random() < 0.7, 'form': form}
+        if derived and (rng.random() < 0.3 or (bare and form == 'time')):
+            r = {'k': 'pyfloat', 'v': float(Fr(d, f))}      # a bare float (ordinary arithmetic rounds it to whole base units)
+            out = {'xs': rep_actual(r, ax['unit'])[0], 'sc': True, 'form': 'rep', 'rep': r}
+        return out
+    # a ramp: changes the interval (possibly its sign); one that cancels it would collapse the axis
+    d = rng.choice([g, -g, dt, 2 * dt, -2 * dt, 2 * dt, -3 * dt, 3 * dt, -dt, dt, rng.randint(-4, 4) * g])
+    s0 = rng.choice([0, 0, g, -t0, rng.randint(-3, 3) * g])
+    ln = n if rng.random() < 0.9 else n + rng.choice([1, -1, 2])
+    xs = [s0 + i * d for i in range(max(ln, 1))]      # (an empty time object cannot be built: constructor, C01)
+    if len(xs) >= 3 and rng.random() < 0.08:
+        xs[rng.randrange(1, len(xs))] += rng.choice([1, -1, g])     # not uniform
+    out = {'xs': xs, 'sc': False, 'form': 'time'}
+    if derived and (bare or rng.random() < 0.3):          # a bare list / float array in the axis unit
+        r = gen_rep_arr(rng, xs, ax['unit'])
+        if r['k'] == 'time' and bare:
+            r = {'k': 'floatarr', 'v': [float(Fr(p, f)) for p in xs]}
+        if r['k'] != 'time':
+            out = {'xs': rep_actual(r, ax['unit'])[0], 'sc': False, 'form': 'rep', 'rep': r}
+    return out
+
+
+def gen_uchange(rng, ax, kind, derived=None):
+    t0, dt, n, g = ax['t0'], ax['dt'], ax['n'], ax['g']
+    k = rng.random()
+    reach = (abs(t0) + (n + 1) * abs(dt)) * 8
+    derived = rng.random() < 0.3 if derived is None else derived
+    rroute = False
+    if derived:             # ordinary arithmetic: the result is a new axis, the old one stays
+        c = rng.choice(['uadd', 'uadd', 'usub', 'ursub'])
+        rroute = c == 'uadd' and rng.random() < 0.4
+        ch = dict(gen_uoperand(rng, ax, True, bare=rroute or c == 'ursub'), c=c)
+    elif k < 0.6:
+        ch = dict(gen_uoperand(rng, ax, False), c=rng.choice(['uadd', 'usub']))
+    elif k < 0.85:
+        kk = rng.choice([-1, -1, 2, -2, 3, 0])
+        if reach * max(1, abs(kk)) >= LIM:
+            kk = -1
+        ch = {'c': 'umul', 'k': kk}
+    else:
+        import math
+        gd = math.gcd(abs(t0), abs(dt))
+        good = [d for d in (2, -2, 4, 5, 10, -1, 3, 1000) if gd % abs(d) == 0]
+        ch = {'c': 'udiv', 'k': rng.choice(good) if good and rng.random() < 0.8 else rng.choice([2, 3, 7, 0, -3])}
+    r = expect_uchange(ax, ch)
+    if r[0] == 'ok' and (abs(r[1]['t0']) + (n + 1) * abs(r[1]['dt'])) * 8 >= LIM:
+        ch, derived = {'c': 'umul', 'k': -1}, False
+    if derived:
+        ch['route'] = 'derived-r' if rroute else 'derived'
+    else:
+        ch['route'] = 'op' if kind == 'uaxis' else rng.choice(['attr', 'alias'])
+    ch['ounit'] = rng.choice(UNITS)
+    return ch
+
+
+def gen_derive(rng, nmax):
+    """one-shot: axis ∘ x as a new object (uniform, non-uniform, collapsing and ill-shaped operands)"""
+    ax = gen_axis(rng, nmax)
+    ch = gen_uchange(rng, ax, 'uaxis', derived=True)
+    if not ch['route'].startswith('derived'):
+        ch = dict(gen_uoperand(rng, ax, True), c='uadd', route='derived', ounit='ps')
+    return {'op': 'derive', 'kind': 'uaxis', 'axis': ax, 'd': ch}
+
+
+def gen_hlook(rng, kind, cont):
+    """a lookup on the container as it is now (description without the container)"""
+    if kind in ('uaxis', 'series') and rng.random() < 0.25:
+        ax = cont['axis']       # the time of EVERY sample (as one array query) must map to its own position
+        st = {'op': 'index_at' if kind == 'uaxis' else 'at',
+              'q': {'k': 'time', 'unit': rng.choice(UNITS), 'sc': False, 'ps': [ax['t0'] + i * ax['dt'] for i in range(ax['n'])]}}
+    elif kind == 'tarray' and rng.random() < 0.45:
+        t = cont['t']
+        st = {'op': 'index_at', 'mode': rng.choice(['before', 'after']), 'q': gen_tquery(rng, t), 'tol': None}
+    elif kind == 'tarray' and rng.random() < 0.3:
+        st = {'op': rng.choice(['slice_during', 'during']), 'e': gen_tepoch(rng, cont['t'])}
+    else:
+        st = gen_step(rng, kind, cont)
+    return {k: v for k, v in st.items() if k not in CONT_KEYS and k != 'kind'}
+
+
+def gen_hist(rng, nmax):
+    kind = rng.choice(['tarray', 'tarray', 'tarray', 'tarray', 'events', 'uaxis', 'uaxis', 'series'])
+    m = {'op': 'hist', 'kind': kind}
+    if kind in ('tarray', 'events'):
+        while True:
+            t = gen_tarray(rng, min(nmax, 20), sorted_=rng.random() < 0.75)
+            if len(t['ps']) >= 2 or rng.random() < 0.1:
+                break
+        m['t'] = t
+        if kind == 'events':
+            m['vals'] = [[rng.randint(-99, 99) for _ in t['ps']] for _ in range(rng.randint(1, 2))]
+        elif rng.random() < 0.12:       # the array is what `uniform axis + non-uniform operand` gives
+            for _ in range(20):
+                ax = gen_axis(rng, min(nmax, 20))
+                c = rng.choice(['uadd', 'usub', 'ursub'])
+                ch = dict(gen_uoperand(rng, ax, True, bare=c == 'ursub'), c=c, route='derived', ounit=rng.choice(UNITS))
+                new = derive_samples(ax, ch)
+                if ax['n'] >= 2 and new is not None and expect_uchange(ax, ch)[0] == 'err':
+                    m['t'] = {'unit': ax['unit'], 'ps': new, 'g': ax['g']}
+                    m['born'] = {'derive': ch, 'axis': ax}
+                    break
+        elif rng.random() < 0.25:       # the array is itself a view of a longer one
+            g = t['g']
+            m['born'] = {'pre': [min(t['ps']) - rng.randint(0, 3) * g for _ in range(rng.randint(0, 3))],
+                         'post': [max(t['ps']) + rng.randint(0, 3) * g for _ in range(rng.randint(0, 3))]}
+    else:
+        ax = gen_axis(rng, min(nmax, 30))
+        m['axis'] = ax
+        if kind == 'series':
+            m['data'] = gen_data(rng, ax['n'])
+    cur = {k: m[k] for k in CONT_KEYS if k in m}
+    steps = []
+    if kind in ('uaxis', 'series') and rng.random() < 0.35:
+        # the axis under study is BORN by ordinary arithmetic on another one
+        ch = gen_uchange(rng, cur['axis'], kind, derived=True)
+        r = expect_uchange(cur['axis'], ch)
+        if r[0] == 'ok' and ch['route'].startswith('derived'):
+            cur = dict(cur, axis=r[1])
+            steps.append({'chg': ch})
+    for _ in range(rng.choice([1, 1, 1, 2, 3])):
+        for _ in range(rng.choice([0, 1, 1, 2, 3])):
+            steps.append({'look': gen_hlook(rng, kind, cur)})
+        for _ in range(rng.choice([1, 1, 2])):
+            if kind in ('tarray', 'events'):
+                ch = gen_tchange(rng, cur['t'], born_view='pre' in (m.get('born') or {}))
+                new = expect_tchange(list(cur['t']['ps']), ch)
+                if new is not None:
+                    cur = dict(cur, t=dict(cur['t'], ps=new))
+            else:
+                ch = gen_uchange(rng, cur['axis'], kind)
+                r = expect_uchange(cur['axis'], ch)
+                if r[0] == 'ok':
+                    cur = dict(cur, axis=r[1])
+                elif ch['route'].startswith('derived'):
+                    continue        # a refused operand makes a plain time array (one-shot `derive` cases, `born` arrays)
+            steps.append({'chg': ch})
+    for _ in range(rng.randint(2, 4)):
+        steps.append({'look': gen_hlook(rng, kind, cur)})
+    looks = [i for i, st in enumerate(steps) if 'look' in st]
+    if rng.random() < 0.3 and looks:
+        # an earlier lookup is asked again at the end with the SAME query / epoch / tolerance objects
+        i = rng.choice(looks)
+        lk = steps[i]['look']
+        sh = {k: '%s%d' % (k.upper(), i) for k in ('q', 'e', 'tol') if lk.get(k) is not None}
+        steps[i] = {'look': dict(lk, share=sh)}
+        steps.append({'look': dict(lk, share=sh)})
+    m['steps'] = steps
+    return m
+
+
 def gen_epochs_getitem(rng):
     n = rng.randint(2, 5)
     u = rng.choice(UNITS)
@@ -1201,6 +1898,10 @@ def cases(rng, tier, seed):
         add(gen_seq(rng, nmax))
     for _ in range(60 * scale):                       # Epochs[key] with reordering / repeating keys
         add(gen_epochs_getitem(rng))
+    for _ in range(500 * scale):                      # histories: lookups, in-place changes by every route, lookups again
+        add(gen_hist(rng, nmax))
+    for _ in range(150 * scale):                      # axis + x, x - axis, … as new objects
+        add(gen_derive(rng, 30))
     out, skipped = [], 0
     for m in CORPUS + metas:
         c = run_case(dict(m))
@@ -1229,6 +1930,14 @@ def _E(unit='s', **kw):
 S = 10**12
 _AX = {'unit': 's', 't0': 0, 'dt': 3 * S, 'n': 4, 'ctor': 'duration', 'D': 10 * S, 'g': S}
 _AXL = {'unit': 'ms', 't0': -3 * 10**9, 'dt': 2 * 10**9, 'n': 5, 'ctor': 'length', 'g': 10**9}
+_AXM = {'unit': 'ms', 't0': 0, 'dt': 2 * 10**9, 'n': 4, 'ctor': 'length', 'g': 10**9}
+_PLUS5 = {'c': 'uadd', 'xs': [5 * 10**9], 'sc': True, 'form': 'pyint', 'route': 'derived', 'ounit': 'ms'}
+
+
+def _TQ(ps, sc):
+    return {'k': 'time', 'unit': 'ms', 'sc': sc, 'ps': ps}
+
+
 CORPUS = [   # minimal inputs of the recorded findings + boundary cases, run first on every run
     {'op': 'slice_during', 'kind': 'tarray', 't': _T('s', [S, S, 2 * S]), 'e': _E(start=1, stop=1.5)},
     {'op': 'slice_during_cur', 'kind': 'tarray', 't': _T('s', [S, S, 2 * S]), 'e': _E(start=1, stop=1.5)},
@@ -1242,6 +1951,18 @@ CORPUS = [   # minimal inputs of the recorded findings + boundary cases, run fir
     {'op': 'slice_during', 'kind': 'uaxis', 'axis': _AXL, 'e': _E('ms', start=-3, stop=2)},
     {'op': 'during', 'kind': 'series', 'axis': _AXL, 'data': {'shape': [2, 5], 'vals': list(range(10))}, 'e': _E('ms', start=1, stop=8)},
     {'op': 'getitem', 'kind': 'events', 't': _T('s', [S, S, 2 * S, 5 * S]), 'vals': [[10, 20, 30, 40]], 'key': 'ep', 'e': _E(start=1, stop=1.5)},
+    # axes made by ordinary arithmetic (finding 4): v = u + 5; v.index_at(v[1]); 5 - u; a series on v
+    {'op': 'derive', 'kind': 'uaxis', 'axis': _AXM, 'd': dict(_PLUS5)},
+    {'op': 'derive', 'kind': 'uaxis', 'axis': _AXM, 'd': dict(_PLUS5, c='ursub')},
+    {'op': 'hist', 'kind': 'uaxis', 'axis': _AXM, 'steps': [{'chg': dict(_PLUS5)}, {'look': {'op': 'index_at', 'q': _TQ([7 * 10**9], True)}},
+                                                            {'look': {'op': 'index_at', 'q': _TQ([5 * 10**9, 7 * 10**9, 9 * 10**9, 11 * 10**9], False)}},
+                                                            {'look': {'op': 'slice_during', 'e': _E('ms', start=5, stop=8)}}]},
+    {'op': 'hist', 'kind': 'series', 'axis': _AXM, 'data': {'shape': [4], 'vals': [0, 1, 2, 3]},
+     'steps': [{'chg': dict(_PLUS5)}, {'look': {'op': 'at', 'q': _TQ([7 * 10**9], True)}}, {'look': {'op': 'during', 'e': _E('ms', start=5, stop=8)}}]},
+    # a sorted array, looked up, negated in place, looked up again (seeded change C03-6 and its class)
+    {'op': 'hist', 'kind': 'tarray', 't': _T('s', [S, 2 * S, 3 * S, 4 * S]),
+     'steps': [{'look': {'op': 'index_at', 'mode': 'before', 'q': _num(2.5), 'tol': None}}, {'chg': {'c': 'mul', 'k': -1, 'route': 'imul', 'ounit': 'ps'}},
+               {'look': {'op': 'index_at', 'mode': 'before', 'q': _num(-2.5), 'tol': None}}, {'look': {'op': 'index_at', 'mode': 'after', 'q': _num(-2.5), 'tol': None}}]},
 ]
 
 
